@@ -67,7 +67,16 @@ impl<T: Qcow2IoOps> Qcow2Dev<T> {
     #[inline]
     pub(crate) async fn call_fsync(&self, offset: u64, len: usize, flags: u32) -> Qcow2Result<()> {
         log::trace!("fsync off {:x} len {} flags {}", offset, len, flags);
-        self.file.fsync(offset, len, flags).await
+        // covers what has been written by now
+        let written = self.meta_written.load(Ordering::Relaxed);
+        self.file.fsync(offset, len, flags).await?;
+        self.meta_synced.fetch_max(written, Ordering::Relaxed);
+        Ok(())
+    }
+
+    /// metadata has been written which no successful fsync covers yet
+    fn meta_unsynced(&self) -> bool {
+        self.meta_written.load(Ordering::Relaxed) > self.meta_synced.load(Ordering::Relaxed)
     }
 
     async fn load_top_table<B: Table>(&self, top: &AsyncRwLock<B>, off: u64) -> Qcow2Result<usize> {
@@ -400,7 +409,9 @@ impl<T: Qcow2IoOps> Qcow2Dev<T> {
         let buf = unsafe {
             std::slice::from_raw_parts(((t.as_ptr() as u64) + start as u64) as *const u8, size)
         };
-        self.call_write(off, buf).await
+        self.call_write(off, buf).await?;
+        self.meta_written.fetch_add(1, Ordering::Relaxed);
+        Ok(())
     }
 
     pub(crate) async fn flush_top_table<B: Table>(&self, rt: &B) -> Qcow2Result<()> {
@@ -438,7 +449,7 @@ impl<T: Qcow2IoOps> Qcow2Dev<T> {
             let end = key_fn(((idx + 1) as u64) << bs_bits);
 
             let res = async {
-                if self.flush_cache(cache, start, end, refcount_first).await? {
+                if self.flush_cache(cache, start, end, refcount_first).await? || self.meta_unsynced() {
                     // order cache flush and the upper layer table
                     self.call_fsync(0, usize::MAX, 0).await?;
                 }
@@ -454,7 +465,7 @@ impl<T: Qcow2IoOps> Qcow2Dev<T> {
             Ok(false)
         } else {
             // flush cache without holding top table read lock
-            if self.flush_cache(cache, 0, usize::MAX, refcount_first).await? {
+            if self.flush_cache(cache, 0, usize::MAX, refcount_first).await? || self.meta_unsynced() {
                 self.call_fsync(0, usize::MAX, 0).await?;
             }
             Ok(true)
@@ -516,7 +527,7 @@ impl<T: Qcow2IoOps> Qcow2Dev<T> {
         // Callers go on writing mapping tables, which is only safe once the
         // refcounts are durable: a refblock reached through a reftable block
         // that is still in flight doesn't count
-        if rt_written {
+        if rt_written || self.meta_unsynced() {
             self.call_fsync(0, usize::MAX, 0).await?;
         }
         Ok(())
